@@ -101,6 +101,25 @@ Proof.
   apply Permutation_map. now apply Permutation_sym.
 Qed.
 
+Lemma perm_remove_mid (p1 p2 : amap) k old l :
+  NoDup (map fst l) -> Permutation (p1 ++ (k, old) :: p2) l ->
+  Permutation (p1 ++ p2) (aremove k l).
+Proof.
+  intros Hnd Hp.
+  pose proof (perm_keys_nodup _ _ Hp Hnd) as Hk. rewrite map_app in Hk. cbn in Hk.
+  pose proof (NoDup_remove_2 _ _ _ Hk) as Hn.
+  rewrite <- (aremove_perm k _ _ Hp), aremove_app. cbn. rewrite N.eqb_refl.
+  rewrite !aremove_notin; [reflexivity| |]; intro H; apply Hn; apply in_or_app; tauto.
+Qed.
+
+Lemma perm_update_mid (p1 p2 : amap) k old v l :
+  NoDup (map fst l) -> Permutation (p1 ++ (k, old) :: p2) l ->
+  Permutation (p1 ++ (k, v) :: p2) ((k, v) :: aremove k l).
+Proof.
+  intros Hnd Hp. rewrite <- (perm_remove_mid _ _ _ _ _ Hnd Hp).
+  apply Permutation_sym, Permutation_middle.
+Qed.
+
 (* ---- the order of the observation and insertion sort --------------------------------- *)
 Lemma kv_leb_total a c : kv_leb a c = false -> kv_leb c a = true.
 Proof.
@@ -235,7 +254,7 @@ Proof.
   induction n as [|m IH]; cbn; intro H; [lia|].
   destruct (N.eq_dec (N.of_nat m) i) as [E|Hne].
   - rewrite E, !upd_same. cbn. apply Permutation_app_head.
-    rewrite !alld_upd_ge by lia. reflexivity.
+    rewrite (alld_upd_ge ch i c), (alld_upd_ge ch i []) by lia. reflexivity.
   - rewrite !upd_other by exact Hne.
     rewrite IH by lia. rewrite !app_assoc. apply Permutation_app_tail, Permutation_app_comm.
 Qed.
@@ -286,7 +305,7 @@ Proof.
   intros Hnd Hi Hj Hne Hin Hin'.
   eapply Permutation_NoDup in Hnd; [|apply (alld_split ch i n Hi)].
   eapply notin_app_l; [exact Hnd|exact Hin|].
-  apply in_alld. exists j. split; [exact Hj|]. now rewrite upd_other.
+  apply in_alld. exists j. split; [exact Hj|]. rewrite upd_other by congruence. exact Hin'.
 Qed.
 
 Lemma alld_all_nil ch n : alld ch n = [] -> forall j, (N.to_nat j < n)%nat -> ch j = [].
@@ -340,10 +359,10 @@ Lemma chain_unlink lv nx h pre p x c :
   chain lv (set nx p (get nx x)) h (pre ++ p :: c).
 Proof.
   revert h. induction pre as [|a pre IH]; cbn; intros h Hnd Hc.
-  - apply chain_some in Hc. destruct Hc as [c' [E [Hl Hc]]]. injection E as <-.
-    pose proof (chain_head_cons _ _ _ _ _ Hc) as Hx.
+  - pose proof (chain_head_cons _ _ _ _ _ Hc) as ->.
+    apply chain_some in Hc. destruct Hc as [c' [E [Hl Hc]]]. injection E as <-.
+    pose proof (chain_head_cons _ _ _ _ _ Hc) as Hx. rewrite Hx in Hc.
     apply chain_some in Hc. destruct Hc as [c'' [E [Hlx Hc]]]. injection E as <-.
-    rewrite (chain_head_cons _ _ _ _ _ (chain_cons _ _ _ _ Hl (chain_cons _ _ _ _ Hlx Hc))).
     constructor; [exact Hl|]. rewrite gss.
     inversion Hnd as [|y ys Hn1 Hnd1]; subst. apply chain_set_next; [|exact Hc].
     intro Hin. apply Hn1. now right.
